@@ -101,9 +101,9 @@ func (c *ExecCtx) evalCall(st *State, call *ast.CallExpr) []Val {
 			}
 		}
 	}
-	c.instSig = sig
 	args := c.evalArgs(st, call, sig, nil)
 	c.runBeforeCallAnchors(st, fn, call, recv, args)
+	c.instSig = sig // (after the arguments: nested generic calls set their own)
 	res := c.dispatch(st, fn, recv, args, call.Pos(), call)
 	// context contract: once Done() has delivered, Err() is non-nil
 	if fn.FullName() == "(context.Context).Err" && recvExpr != nil && len(res) == 1 {
@@ -1645,8 +1645,7 @@ func (r *reachSet) add(t types.Type) {
 	case *types.Chan:
 		r.add(u.Elem())
 	case *types.Map:
-		ks, vs := r.tm.SortOf(u.Key()), r.tm.SortOf(u.Elem())
-		base := "M." + sanitize(ks) + "." + sanitize(vs)
+		base := r.tm.mapHeapBase(u)
 		r.heaps[base+".has"], r.heaps[base+".val"], r.heaps[base+".len"] = true, true, true
 		r.add(u.Key())
 		r.add(u.Elem())
